@@ -104,6 +104,8 @@ def mon_ledger(c):
     killed, flagged = set(), set()
     for (f, cmp_, diag, _) in c.steps:
         op = f[2]
+        if cmp_ == "mon":
+            break       # the peer has stopped reading: from here on mon_stall judges
         if op == "new":
             for (t, fl, sid, p) in parse_frames(f[3]):
                 if t == 4 and not fl & 1:
@@ -223,6 +225,8 @@ def mon_resolve(c):
     wfail_at = None
     srv_buf, srv_ended = b"", set()     # the server's octets so far; streams it has ended with END_STREAM
     for i, (f, cmp_, diag, _) in enumerate(c.steps):
+        if cmp_ == "mon":
+            break       # the peer has stopped reading: from here on mon_stall judges
         if f[2] == "frame" and f[3] != "-":
             try:
                 srv_buf += bytes.fromhex(f[3])
@@ -278,6 +282,8 @@ def mon_resolve(c):
                 k = kvs(cmp_)
                 if cmp_.startswith("read ok ") and k.get("sid", "0").isdigit() and int(k.get("sid", "0")) not in srv_ended:
                     v.append(("success-without-response", "%s is reported successful although the server never finished a response on stream %s" % (f[3], k.get("sid"))))
+    if any(cmp_ == "mon" for (_, cmp_, _, _) in c.steps):
+        dead_at = None
     if stuck_at is not None:
         left = [t for t in no_result if t not in results and t in tags]
         v.append(("deadlock", "the connection's loops neither went idle nor exited after: %s%s" % (
@@ -291,6 +297,137 @@ def mon_resolve(c):
         for t in tags:
             if t in last_read and t not in results and not any(x[0] == "stranded-request" and x[1].startswith(t + " ") for x in v):
                 v.append(("stranded-request", t))
+    return v
+
+
+def mon_stall(c):
+    """C12 under a peer that has stopped reading (ops after `stall`, reported by the harness in `mon` lines):
+    a timeout delivers its result at once, whatever is queued or blocked; a caller that has its result gets its
+    request back; Close returns; once the connection is closed or has been dropped both loops are gone, nobody
+    is left parked and every request has a result; when the peer reads again the connection settles."""
+    v = []
+    fired, ended = set(), False
+    sid_of = {}
+    for (f, cmp_, diag, _) in c.steps:
+        if cmp_ == "panic":
+            v.append(("panic", " ".join(f[2:4])[:80]))
+            return v
+        if cmp_ != "mon":
+            continue
+        d = diag.split(" ")
+        what = d[0]
+        kv = dict(x.split("=", 1) for x in d if "=" in x)
+        if what == "req":
+            sid_of[d[1]] = kv.get("sid", "0")
+        elif what == "timeout":
+            tag = d[1]
+            fired.add(tag)
+            if len(d) > 2 and d[2] == "again":
+                pass
+            elif kv.get("result") != "1":
+                v.append(("no-result-after-timeout", "%s: its timeout fired and no result was delivered (the timer %s)" % (
+                    tag, "came back" if kv.get("fired") == "1" else "never came back")))
+            elif kv.get("ff", "0") != "0":
+                v.append(("timeout-result-waited-for-write-deadline", "%s: the result of the fired timeout was only delivered once a write deadline had passed" % tag))
+        elif what == "read":
+            tag, st = d[1], d[2]
+            if st == "none":
+                if tag in fired:
+                    v.append(("stranded-request", "%s has no result after its timeout fired" % tag))
+                elif ended:
+                    v.append(("stranded-request", "%s has no result after the connection ended" % tag))
+            elif st == "in-write":
+                if ended:
+                    v.append(("caller-in-write-after-connection-ended", "%s: the connection is over and its caller is still inside Conn.Write" % tag))
+                elif tag in fired:
+                    v.append(("caller-blocked-in-write", "%s: its caller is still inside Conn.Write (writer blocked on %s)" % (tag, kv.get("wblocked"))))
+            elif st in ("again", "unknown"):
+                pass
+            elif kv.get("hung") == "1":
+                wb = kv.get("wblocked", "-")
+                own = not ended and wb not in ("-", "?") and wb.split(":")[1] == kv.get("sid") and kv.get("sid") != "0"
+                v.append(("caller-blocked-on-own-write" if own else "caller-blocked",
+                          "%s: the result (%s) arrived but taking the request back never returns; the writer is blocked on frame %s" % (tag, st, wb)))
+        elif what == "close":
+            ended = True
+            if kv.get("returned") != "1":
+                v.append(("close-blocked", "Conn.Close did not return (writer blocked on %s)" % kv.get("wblocked")))
+            elif kv.get("exited") != "1":
+                v.append(("loops-left-running", "Close returned and %s of the 2 loops have exited" % kv.get("loops")))
+        elif what == "cut":
+            ended = True
+            if kv.get("exited") != "1":
+                v.append(("loops-left-running", "the peer disconnected and %s of the 2 loops have exited" % kv.get("loops")))
+        elif what == "unstall":
+            if kv.get("quiet") != "1":
+                v.append(("stuck-after-peer-resumed", "the peer reads again and the connection neither goes idle nor ends (%s)" % " ".join(d[3:9])))
+        elif what == "end" and ended:
+            if kv.get("timers", "-") != "-" or kv.get("writes", "-") != "-" or kv.get("closes", "0") != "0":
+                v.append(("goroutines-left-behind", "after the connection ended: timers=%s writes=%s closes=%s" % (kv.get("timers"), kv.get("writes"), kv.get("closes"))))
+            if kv.get("noresult", "-") != "-":
+                v.append(("stranded-request", "%s: no result after the connection ended" % kv.get("noresult")))
+    return v
+
+
+def mon_stall_blocking_only(c):
+    return [x for x in mon_stall(c) if x[0] not in ("stranded-request",)]
+
+
+def sum32(b):
+    h = 0
+    for x in b:
+        h = (h * 31 + x) & 0xffffffff
+    return h
+
+
+def mon_errvalue(c):
+    """C11/C12/C19: what the caller is told stays true. An error that is (or wraps) the GOAWAY frame that ended the
+    connection says what the scripted server's first GOAWAY with last-stream-id 0 said (last-stream-id, code, debug
+    data), whenever it is looked at: when the connection ends (LastErr), when a request's result is taken, and again
+    after Close, later frames and later connections (`errs`). A difference means the value handed out does not belong
+    to the caller alone (a pooled frame released while still referenced). The anomalies of the pool tracker (`pool=` in a
+    step's diagnostics: acquired while held, released twice) are reported here too: the tracker is restarted with every
+    scripted connection, so the report at the end of a run only covers the last one."""
+    v = []
+    buf = b""
+    for (f, _, _, _) in c.steps:
+        hexs = None
+        if f[2] in ("new", "frame") and len(f) > 3:
+            hexs, n = f[3], 1
+        elif f[2] == "flood" and len(f) > 4:
+            hexs, n = f[4], int(f[3])
+        if hexs and hexs != "-":
+            try:
+                buf += bytes.fromhex(hexs) * n
+            except ValueError:
+                pass
+    want = None
+    while len(buf) >= 9:
+        l = int.from_bytes(buf[:3], "big")
+        if len(buf) < 9 + l:
+            break
+        t, sid, p = buf[3], int.from_bytes(buf[5:9], "big") & 0x7fffffff, buf[9:9 + l]
+        if t == 7 and sid == 0 and l >= 8 and int.from_bytes(p[:4], "big") & 0x7fffffff == 0:
+            want = "0:%d:%d:%d" % (int.from_bytes(p[4:8], "big"), l - 8, sum32(p[8:]))
+            break
+        buf = buf[9 + l:]
+    seen = set()
+    for (f, cmp_, diag, _) in c.steps:
+        for tok in diag.split(" "):
+            m = re.match(r"(?:(last)|(t\d+):)?ga=(\S+)$", tok)
+            if m:
+                who = "LastErr" if m.group(1) else (m.group(2) or (f[3] if len(f) > 3 else "?"))
+                if m.group(3) != want and (who, m.group(3)) not in seen:
+                    seen.add((who, m.group(3)))
+                    v.append(("goaway-error-says-something-else", "%s at `%s` says last:code:debuglen:digest %s, the server's GOAWAY said %s" % (
+                        who, " ".join(f[2:4])[:30], m.group(3), want)))
+            if tok.startswith("pool="):
+                # the pool tracker of the library's verification hooks is on for every scripted connection: an object
+                # acquired while held, or released twice, has (or can get) two owners
+                v.append(("pool-tracker-anomaly", "%s at `%s`" % (tok[5:][:200], " ".join(f[2:4])[:30])))
+            m = re.match(r"keptchanged=(\d+)$", tok)
+            if m and m.group(1) != "0":
+                v.append(("error-of-ended-connection-changed", "%s GOAWAY-class errors of earlier connections say something else now than when they were handed out" % m.group(1)))
     return v
 
 
@@ -606,13 +743,39 @@ def end_stream_bit_on_other_frame(c):
                for (f, _, _, _) in c.steps if f[2] == "frame" for (t, fl, sid, _) in parse_frames(f[3]))
 
 
+def stalled_ops(c):
+    """the op tokens that follow `stall` on a connection"""
+    k = next((i for i, (f, _, _, _) in enumerate(c.steps) if f[2] == "stall"), None)
+    return [] if k is None else [f for (f, _, _, _) in c.steps[k + 1:]]
+
+
+def request_written_to_stalled_peer(c):
+    """F81: the peer stopped reading and the write loop then had a request's HEADERS or DATA to write"""
+    after = stalled_ops(c)
+    if not after:
+        return False
+    uploads = any(f[2] == "req" and f[10] != "none" for (f, _, _, _) in c.steps)
+    return any(f[2] == "req" for f in after) or (uploads and any(f[2] in ("flood", "frame") for f in after)) or \
+        any(f[2] == "stall" and len(f) > 3 and f[3] != "0" for (f, _, _, _) in c.steps)
+
+
+def queue_filled_behind_stalled_peer(c):
+    """F82: after the peer had stopped reading, more requests were handed to the connection than its queue holds (128,
+    plus the one the write loop may be holding)"""
+    return sum(1 for f in stalled_ops(c) if f[2] == "req") >= 129
+
+
 CLASSES = {
     "end-stream-bit-on-other-frame": end_stream_bit_on_other_frame,
+    "request-written-to-stalled-peer": request_written_to_stalled_peer,
+    "queue-filled-behind-stalled-peer": queue_filled_behind_stalled_peer,
 }
 
 # which violation kinds a class can explain
 CLASS_KINDS = {
     "end-stream-bit-on-other-frame": {"success-without-response", "response-from-nowhere"},
+    "request-written-to-stalled-peer": {"caller-blocked-on-own-write"},
+    "queue-filled-behind-stalled-peer": {"caller-blocked-in-write"},
 }
 
 
@@ -625,7 +788,8 @@ REGRESSION = {
     "C14": ["known/F39.ops"],
     "C02": ["known/F36.ops"],
     "C11": ["known/F37.ops"],
-    "C12": ["known/F36.ops"],
+    "C12": ["known/F36.ops", "known/F80.ops", "known/F83.ops", "known/F84.ops"],
+    "C07": ["known/F83.ops", "known/F84.ops"],
     "C18": ["known/F09.ops", "known/F35c.ops"],
 }
 
@@ -761,9 +925,16 @@ WFAIL_NOTE = ("cliwfail: the transport fails every write after n more octets (n 
               "flow-blocked) and into random traffic, followed by timeout/read/close/cut in several orders.")
 
 
+STALL_NOTE = (" clistall: the peer stops reading (at once or some octets into the next frames) with requests of every body kind in "
+              "flight, queued or held by flow control; it floods 0/1/100/127/128/129/300 PING, SETTINGS or DATA frames (each asks for a "
+              "reply; the client's control-frame queue holds 128), opens windows, answers some requests; timeouts fire in any order, callers "
+              "take their results; then Close, disconnect, half-close, the peer reading again, or nothing. Steps after `stall` are "
+              "reported in `mon` lines (not compared with the model) and judged by mon_stall with deadlines.")
+
+
 def run_c07(ctx):
-    return run_areas(ctx, ["cliflow", "cliwfail"], [mon_ledger, mon_resolve_deadlock_only],
-                     "cliflow: uploads (buffered/streamed) x initial window / MAX_FRAME_SIZE x schedules of WINDOW_UPDATE and SETTINGS. " + WFAIL_NOTE)
+    return run_areas(ctx, ["cliflow", "cliwfail", "clistall"], [mon_ledger, mon_resolve_deadlock_only, mon_stall_blocking_only],
+                     "cliflow: uploads (buffered/streamed) x initial window / MAX_FRAME_SIZE x schedules of WINDOW_UPDATE and SETTINGS. " + WFAIL_NOTE + STALL_NOTE)
 
 
 def mon_resolve_deadlock_only(c):
@@ -771,13 +942,15 @@ def mon_resolve_deadlock_only(c):
 
 
 def run_c12(ctx):
-    return run_areas(ctx, ["cliresolve", "cliwfail", "clirace"], [mon_resolve],
-                     "cliresolve: request sets x hostile server behaviour x cut points of a recorded byte stream x Close/timeout. " + WFAIL_NOTE)
+    return run_areas(ctx, ["cliresolve", "cliwfail", "clirace", "clistall"], [mon_resolve, mon_stall, mon_errvalue],
+                     "cliresolve: request sets x hostile server behaviour x cut points of a recorded byte stream x Close/timeout. " + WFAIL_NOTE + STALL_NOTE)
 
 
 def run_c11(ctx):
-    return run_areas(ctx, ["cligoaway", "cliwfail", "clirace"], [mon_goaway, mon_resolve_deadlock_only],
-                     "cligoaway: GOAWAY(last, code) at every position relative to in-flight requests, answers in every order. " + WFAIL_NOTE)
+    return run_areas(ctx, ["cligoaway", "cliwfail", "clirace"], [mon_goaway, mon_resolve_deadlock_only, mon_errvalue],
+                     "cligoaway: GOAWAY(last, code, debug data) at every position relative to in-flight requests, answers in every order; what "
+                     "LastErr and the requests' errors say about the GOAWAY is compared with the frame sent, when handed out and again after "
+                     "Close, later frames and later connections. " + WFAIL_NOTE)
 
 
 def run_c02(ctx):
@@ -807,9 +980,9 @@ ASSUME = [
 
 def register(PROPS):
     PROPS.update({
-        "C07": dict(module="H2.Props.C07", run=run_c07, assumptions=ASSUME, replay=make_replay([mon_ledger, mon_resolve_deadlock_only])),
-        "C12": dict(module="H2.Props.C12", run=run_c12, assumptions=ASSUME, replay=make_replay([mon_resolve])),
-        "C11": dict(module="H2.Props.C11", run=run_c11, assumptions=ASSUME, replay=make_replay([mon_goaway, mon_resolve_deadlock_only])),
+        "C07": dict(module="H2.Props.C07", run=run_c07, assumptions=ASSUME, replay=make_replay([mon_ledger, mon_resolve_deadlock_only, mon_stall_blocking_only])),
+        "C12": dict(module="H2.Props.C12", run=run_c12, assumptions=ASSUME, replay=make_replay([mon_resolve, mon_stall, mon_errvalue])),
+        "C11": dict(module="H2.Props.C11", run=run_c11, assumptions=ASSUME, replay=make_replay([mon_goaway, mon_resolve_deadlock_only, mon_errvalue])),
         "C02": dict(module="H2.Props.C02", run=run_c02, assumptions=ASSUME, replay=make_replay([mon_resp, mon_resolve_deadlock_only])),
         "C14c": dict(module="H2.Props.C14c", run=run_c14c, assumptions=ASSUME, replay=make_replay([mon_credit])),
         "C18c": dict(module="H2.Props.C18c", run=run_c18c, assumptions=ASSUME, replay=make_replay([mon_settings, mon_ledger])),
